@@ -1,17 +1,19 @@
 # Source of MANIFEST.json (run gen_manifest.py after editing).
 ENGINES = [
+    {"name": "E3-scheduler", "path": "mc/explore_sched.py", "serves_properties": ["C14", "C15"],
+     "kind_free_text": "cooperative scheduler for simulated worker processes (threads with a baton) + fake pool / manager queues with pickling; iterative preemption bounding on top of E1"},
     {"name": "E4-faults", "path": "mc/faults.py", "serves_properties": ["C12"],
      "kind_free_text": "call-indexed fault injector for user callbacks: every call index x fault kind is enumerated"},
     {"name": "E1-choice", "path": "mc/explore_choice.py", "serves_properties": ["C01"],
      "kind_free_text": "stateless DFS over choice points of the real code, weighted, deviation-bounded"},
     {"name": "E2-bfs", "path": "mc/explore_bfs.py", "serves_properties": ["C09", "C18", "C19"],
      "kind_free_text": "explicit-state BFS over operation histories of real objects (replay from scratch, canonical-form dedup)"},
-    {"name": "lattice", "path": "mc/lattice.py", "serves_properties": ["C02", "C03", "C04", "C05", "C06", "C07", "C08", "C10", "C11", "C16", "C17", "C20"],
+    {"name": "lattice", "path": "mc/lattice.py", "serves_properties": ["C02", "C03", "C04", "C05", "C06", "C07", "C08", "C10", "C11", "C13", "C16", "C17", "C20"],
      "kind_free_text": "complete enumeration of a finite configuration / program lattice against an independent reference"},
 ]
 NOTES = ("All checks explore the real mici code imported from /repo/src; no abstract model. "
-         "Properties not yet claimed are listed under not_applicable with reason 'check not built yet' "
-         "while the framework is under construction.")
+         "All twenty properties are claimed; see DESIGN.md for strength per property, "
+         "known_findings.json for recorded defects.")
 CLAIMED = {
     "C01": dict(
         engine="E1-choice", category="model_checking", design_ref="DESIGN.md section 3 (C01)",
@@ -85,6 +87,24 @@ CLAIMED = {
         text="For 9 integrator/system/solver combinations x 4 transition types, a fault-free run counts the calls of every user callback (density, gradient, constraint, Jacobian, metric, Hessian, VJP/MHP/MTP and their returned closures) inside the integration transition; then for every call index and every fault kind (NaN, +inf, -inf; ValueError and LinAlgError while a solve_* frame is active; forced non-convergence at every solver call index) the run is repeated. Oracle: sample returns, state finite and equal to the pre-transition state or a completed step, matching error flag set and accept_stat 0, Metropolis does not move after an integrator error, the chain continues. The five solvers are also called directly under the same fault menu: only ConvergenceError may escape and any return must satisfy the convergence criterion re-evaluated fault-free.",
         note="Quick tier arms faults in the first iteration only; exceptions are injected only inside iterative solves as the property states.",
     ),
+    "C13": dict(
+        engine="lattice", category="exploration", design_ref="DESIGN.md section 5 (C13)",
+        technique="enumeration of the sampler option product; every run judged row by row against the log of a recording wrapper around every transition (run-time reference model)",
+        text="Product of sampler type (generic MCMC with stub transitions, static / random / multinomial / slice HMC) x chains 1..3 x warm-up {0,1,3} x main {0,1,3} x trace_warm_up x trace function sets (none, default, overlapping keys, integer valued) x monitor_stats x adapters x stager x initial-state form; a recording wrapper around every transition logs the post-transition state and statistics per chain (chain id travels in the state) and every trace row, statistic row (cast to its dtype), array length and final state is compared with the log; a subset is re-run with forced memmap in a temporary and a user directory (.npy files compared) and on the real process pool with n_process 2 and None.",
+        note="Quick tier takes every 3rd option combination (thorough: all); real-pool mismatches must be seen in three consecutive runs.",
+    ),
+    "C14": dict(
+        engine="E3-scheduler", category="model_checking", design_ref="DESIGN.md section 6 (C14)",
+        technique="stateless exploration of all schedules of the real _sample_chains_parallel against a simulated process pool under iterative preemption bounding; conformance runs on the real pool with delay subsets",
+        text="The unmodified parallel sampling code runs against a scheduler-controlled in-process pool (pickled task arguments, queue items and results): every interleaving of manager-queue operations, worker start/exit and result collection up to the preemption bound (1 quick / 2 thorough for single-stage runs) must terminate and return exactly the n_process=1 outputs, for n_process {2,3} x chains {2,3,4} x single/multi-stage (with step-size and variance adapters) x all supported bit generators. The same configurations run on the real pool with every subset of chains delayed. Independence of a chain from other chains' initial states and from the number of chains, and non-replay / distinctness of the recorded random streams are checked directly.",
+        note="max_leaves cap per configuration is reported in caps_hit when reached; the simulated pool is validated by the real-pool conformance runs.",
+    ),
+    "C15": dict(
+        engine="E4-faults", category="fault_enumeration", design_ref="DESIGN.md section 6 (C15)",
+        technique="exhaustive enumeration of interrupt points (chain, callback, call index), crossed with schedules of the simulated pool",
+        text="Every call of neg_log_dens, grad_neg_log_dens and the trace function made inside an iteration of an uninterrupted run is used in turn as the point where KeyboardInterrupt is raised, for sequential runs, runs on the simulated pool (all schedules up to the bound) and on the real pool, single- and multi-stage (with and without adapters), in-memory and memory-mapped storage, 1..3 chains. Oracle: the call returns, completed iterations equal the uninterrupted run bit for bit, rows not reached keep their fill values, the row in progress is fill-or-true array by array, later stages are not started, finished chains are unaffected, final states are aligned with chains, finite and equal to the state after the last completed transition, .npy files equal the returned arrays.",
+        note="Evaluations made during adapter initialisation are outside iterations and are not interrupt points.",
+    ),
     "C16": dict(
         engine="lattice", category="model_checking", design_ref="DESIGN.md section 4 (C16)",
         technique="exhaustive enumeration of the stager's input space (pure function) plus complete product of real sequential sampling runs observed through recording adapters and a recording transition (run-time monitor on every run)",
@@ -117,5 +137,4 @@ CLAIMED = {
     ),
 }
 _ALL = ["C%02d" % i for i in range(1, 21)]
-NOT_APPLICABLE = {p: "check not built yet (framework under construction; will be claimed once its check exists)"
-                  for p in _ALL if p not in CLAIMED}
+NOT_APPLICABLE = {p: "check not built yet" for p in _ALL if p not in CLAIMED}
